@@ -303,6 +303,89 @@ def j11(rep):
             rep.ok("J11", key, sample={"text": t})
 
 
+def _java_text(path):
+    if not os.path.exists(path):
+        raise AnalysisBroken("Java runtime source vanished: %s" % path)
+    text = open(path).read()
+    text = re.sub(r"/\*.*?\*/", lambda m: re.sub(r"[^\n]", " ", m.group(0)), text, flags=re.S)
+    return re.sub(r"//[^\n]*", "", text)
+
+
+def _block(text, i):
+    """text[i] == '{': index just past the matching '}'"""
+    d = 0
+    for j in range(i, len(text)):
+        if text[j] == "{":
+            d += 1
+        elif text[j] == "}":
+            d -= 1
+            if d == 0:
+                return j + 1
+    raise AnalysisBroken("unbalanced braces in Java source")
+
+
+def j14(rep):
+    """What the program printed before it ended is on the process's standard output, however it ended.  The interpreter and
+    the C route write through C stdio, which exit() flushes.  In the Java run-time the program's stdout is System.out (flushed
+    at each newline); two things keep it equal to the others: (a) nothing in foamj puts another buffer between the program and
+    System.out (a BufferedOutputStream flushed `when the program finishes` is not flushed when it ends in an exception: same
+    failure status, no output); (b) FoamContext.startFoam flushes System.out in a `finally` around the program's run, so the
+    text after the last newline is not lost either."""
+    import glob
+    files = sorted(glob.glob(os.path.join(common.JAVA_RT, "*.java")))
+    rep.floor("Java run-time sources", len(files), 20)
+    n = 0
+    for path in files:
+        text = _java_text(path)
+        base = os.path.basename(path)
+        for m in re.finditer(r"\bnew\s+([\w.]+)\s*\(([^;{]*)", text):
+            if re.search(r"\bSystem\s*\.\s*out\b", m.group(2)):
+                n += 1
+                line = text.count("\n", 0, m.start()) + 1
+                rep.violation("J14", "stdout-not-wrapped:%s" % base, "lib/java/src/foamj/%s:%d" % (base, line),
+                              "`new %s(.. System.out ..)`: a second buffer between the program and the process's standard output. "
+                              "It is emptied only where the run-time says so; a program that ends in an uncaught exception, "
+                              "`never`, a failed assert or `error` leaves through a Java exception, and what it printed before "
+                              "is lost, while the interpreter and the executable show it (same failure status, different output)"
+                              % m.group(1))
+    if n == 0:
+        rep.ok("J14", "stdout-not-wrapped", sample={"files": len(files)})
+    text = _java_text(os.path.join(common.JAVA_RT, "FoamContext.java"))
+    m = re.search(r"\bvoid\s+startFoam\s*\([^)]*\)\s*\{", text)
+    if not m:
+        raise AnalysisBroken("FoamContext.startFoam not found")
+    body = text[m.end() - 1:_block(text, m.end() - 1)]
+    run = re.search(r"\.\s*run\s*\(\s*\)", body)
+    if not run:
+        raise AnalysisBroken("FoamContext.startFoam no longer calls run()")
+    ok = False
+    for t in re.finditer(r"\btry\s*\{", body):
+        e = _block(body, t.end() - 1)
+        if not (t.end() <= run.start() < e):
+            continue
+        rest = body[e:]
+        # catch clauses, then finally
+        k = 0
+        while True:
+            mm = re.match(r"\s*catch\s*\([^)]*\)\s*\{", rest[k:])
+            if not mm:
+                break
+            k = _block(rest, k + mm.end() - 1)
+        mm = re.match(r"\s*finally\s*\{", rest[k:])
+        if mm:
+            fb = rest[k + mm.end() - 1:_block(rest, k + mm.end() - 1)]
+            if re.search(r"\bSystem\s*\.\s*out\s*\.\s*flush\s*\(", fb):
+                ok = True
+    line = text.count("\n", 0, m.start()) + 1
+    if ok:
+        rep.ok("J14", "program-end-flushes-stdout")
+    else:
+        rep.violation("J14", "program-end-flushes-stdout", "lib/java/src/foamj/FoamContext.java:%d (startFoam)" % line,
+                      "the program's run is not wrapped in try/finally with System.out.flush(): System.out is flushed at newlines "
+                      "only, so the text after the last newline (a prompt, a result printed without newline) never reaches the "
+                      "output on the Java route, while the interpreter and the executable print it")
+
+
 def j13(rep):
     """gj0BInt writes a big-integer constant either as BigInteger.valueOf(<integer literal>) or as new BigInteger("<digits>").
     jcLiteralInteger prints through `%d`, and a Java integer literal without suffix is an `int`: the literal path is only right
@@ -665,6 +748,7 @@ def run(tier, only=None):
         rep.note("J9 not evaluated: %s" % e)
     j11(rep)
     j13(rep)
+    j14(rep)
     from . import variant_dispatch
     variant_dispatch.report(rep, "J12", common.extract("java/genjava.c", all_trees=True), "genjava.c", "gj0Gen0", 35)
     from . import variadic
